@@ -54,6 +54,10 @@ def install(eng):
     M["core::ops::RangeInclusive::<Idx>::contains"] = m_range_incl_contains
     M["core::iter::range::<impl core::iter::Iterator for core::ops::Range<A>>::next"] = m_range_next
     M["core::clone::Clone::clone"] = NotImplementedModel
+    M["core::slice::<impl [T]>::len"] = m_slice_len
+    M["core::slice::<impl [T]>::get"] = m_slice_get
+    M["core::array::<impl core::ops::Index<I> for [T; N]>::index"] = m_array_index
+    M["core::slice::index::<impl core::ops::Index<I> for [T]>::index"] = m_array_index
 
 
 def NotImplementedModel(*a):
@@ -464,3 +468,88 @@ def m_range_next(eng, st, c, args, dest_tid, t):
             out.append((s, eng.mk_option(dest_tid, None)))
         return out
     return NotImplemented
+
+
+def _arr_of(eng, st, v):
+    a = eng.deref(st, v) if isinstance(v, Ref) else v
+    if isinstance(a, Ref):
+        a = eng.deref(st, a)
+    return a if isinstance(a, Arr) else None
+
+
+def m_slice_len(eng, st, c, args, dest_tid, t):
+    a = _arr_of(eng, st, args[0])
+    if a is None:
+        s = _str_of(eng, st, args[0])
+        if s is not None:
+            return [(st, Int(s.len, dest_tid))]
+        return NotImplemented
+    return [(st, Int(Lin.const(len(a.els)), dest_tid))]
+
+
+def _elem_ref(eng, st, ref, a, i):
+    """Reference to element i of the array behind `ref` (keeps a place when there is one)."""
+    r = ref
+    if isinstance(r, Ref) and r.key is not None:
+        inner = eng.deref(st, r)
+        if isinstance(inner, Ref):
+            r = inner
+    if isinstance(r, Ref) and r.key is not None:
+        return Ref(key=r.key, proj=list(r.proj) + [{"cidx": i, "min_len": i + 1, "from_end": False}])
+    return Ref(val=a.els[i])
+
+
+def m_slice_get(eng, st, c, args, dest_tid, t):
+    a = _arr_of(eng, st, args[0])
+    i = args[1]
+    if a is None or not isinstance(i, Int):
+        return NotImplemented
+    k = eng.const_of(st, i)
+    n = len(a.els)
+    if k is not None:
+        if 0 <= k < n:
+            return [(st, eng.mk_option(dest_tid, _elem_ref(eng, st, args[0], a, k)))]
+        return [(st, eng.mk_option(dest_tid, None))]
+    out = []
+    ins, outs = eng.branch(st, c_and(c_lin("ge", i.lin), c_lin("le", i.lin - (n - 1))))
+    for s2 in outs:
+        out.append((s2, eng.mk_option(dest_tid, None)))
+    for s2 in ins:
+        if n <= 64:
+            for k in range(n):
+                for s3 in eng.assume(s2.clone(), c_lin("eq", i.lin - k)):
+                    out.append((s3, eng.mk_option(dest_tid, _elem_ref(eng, s3, args[0], a, k))))
+        else:
+            et = eng.types[a.tid].get("elem") if a.tid is not None else None
+            out.append((s2, eng.mk_option(dest_tid, Ref(val=eng.fresh(et, ("select", eng.term(a), i.lin.key()))))))
+    return out
+
+
+def m_array_index(eng, st, c, args, dest_tid, t):
+    a = _arr_of(eng, st, args[0])
+    i = args[1]
+    if a is None or not isinstance(i, Int):
+        return NotImplemented
+    k = eng.const_of(st, i)
+    n = len(a.els)
+    if k is not None:
+        if 0 <= k < n:
+            return [(st, _elem_ref(eng, st, args[0], a, k))]
+        st.end = "panic"
+        eng.event(st, "panic", "index out of bounds (constant)")
+        return [(st, DIVERGE)]
+    out = []
+    ins, outs = eng.branch(st, c_and(c_lin("ge", i.lin), c_lin("le", i.lin - (n - 1))))
+    for s2 in outs:
+        s2.end = "panic"
+        eng.event(s2, "panic", "index out of bounds")
+        out.append((s2, DIVERGE))
+    for s2 in ins:
+        if n <= 64:
+            for k in range(n):
+                for s3 in eng.assume(s2.clone(), c_lin("eq", i.lin - k)):
+                    out.append((s3, _elem_ref(eng, s3, args[0], a, k)))
+        else:
+            et = eng.types[a.tid].get("elem") if a.tid is not None else None
+            out.append((s2, Ref(val=eng.fresh(et, ("select", eng.term(a), i.lin.key())))))
+    return out
